@@ -382,13 +382,13 @@ def _run2(rep, quick, rng, jobs, futs, fut_g, fut_p, fut_q):
     rng.shuffle(pathb)
     keep, spent = [], 0.0
     for p in pathb:
-        if spent + cost(p) <= (60 if quick else 1500):
+        if spent + cost(p) <= (60 if quick else 600):
             keep.append(p)
             spent += cost(p)
     pathb = keep
     # 4. the simulated pool, reduced to the behaviours that cover the situation features
-    simb, fcov, ftot = select(pool, 90 if quick else 1500, rng, per_feature=1 if quick else 3)
-    simq, qcov, qtot = select(pool_live, 50 if quick else 900, rng, per_feature=1 if quick else 3)
+    simb, fcov, ftot = select(pool, 90 if quick else 900, rng, per_feature=1 if quick else 3)
+    simq, qcov, qtot = select(pool_live, 50 if quick else 500, rng, per_feature=1 if quick else 3)
     rep.cov['situation_features_in_pool_live_leader'] = qtot
     rep.cov['situation_features_replayed_live_leader'] = qcov
     simb += simq
